@@ -8,6 +8,7 @@ import (
 	"sort"
 	"strconv"
 	"testing"
+	"time"
 
 	"gopkg.in/typ.v4"
 	"gopkg.in/typ.v4/slices"
@@ -28,7 +29,9 @@ const (
 	opScribble = 8  // the caller overwrites position A mod n of the slice it passed to NewSorted with elem(B)
 	opSweep    = 9  // strict orders: Index/Contains of (up to 64 evenly spread) distinct stored values and of 8 values elem(A), elem(A+1), ...
 	opGC       = 10 // runtime.GC() (twice when A is odd: two cycles empty every sync.Pool); not a library call; the first four of a case only
-	nOps       = 11
+	opPair     = 11 // strict orders: 1 + B mod 2^17 times in a row [p = Add(elem(A+2i)); Get(p); RemoveAt(p) (even i) or Remove(elem(A+2i)) (odd i)], every return value checked; the contents are read back after the whole series
+	opSleep    = 12 // time.Sleep(100 ms * (A mod 80)): wall-clock time passes in the middle of the history (the first two of a case only); not a library call
+	nOps       = 13
 )
 
 // Index modes (Op.B of RemoveAt/Get): 0 = A mod Len (a valid index unless the
@@ -51,11 +54,18 @@ type Fill struct {
 	N int `json:"n"`
 	A int `json:"a"`
 	S int `json:"s"`
+	// Adv != 0: the N values A, A+S, ... are not laid out in this order but as a quicksort-killer permutation of
+	// their sorted sequence under the order's less (M. D. McIlroy, "A Killer Adversary for Quicksort"), built against
+	// 1 the library's own NewSorted (that call is itself checked), 2 sort.Slice, 3 sort.SliceStable, 4 a copy of the
+	// Go <= 1.18 sort.Sort quicksort (ninther, no depth limit), 5/6/7 a plain quicksort with first / middle /
+	// median-of-three pivot (see antiRanks).
+	Adv int `json:"adv,omitempty"`
 }
 
 const (
-	maxRepeat  = 1 << 21 // R, Rounds and Fill.N are reduced modulo this
-	maxLenSeen = 1 << 22
+	maxRepeat  = 1 << 25 // R, Rounds and Fill.N are reduced modulo this
+	maxLenSeen = 1 << 26
+	maxSleeps  = 2 // opSleep beyond the second of a case does nothing
 	maxGCs     = 4 // opGC beyond the fourth of a case does nothing
 )
 
@@ -79,6 +89,9 @@ const (
 //	"iffloat" NewSorted(sort.Float64Slice, a > b)
 //	"ifweird" NewSorted(weirdInts, typ.Less): own value-receiver Less compares x mod 3 descending
 //	"ifptr"   NewSorted(ptrInts, typ.Less): own pointer-receiver Len/Less/Swap, descending
+//	"u32"     NewSortedOrdered[uint32] over the values x mod Vals (four bytes each: for inputs of millions of values)
+//	"u8"      NewSortedOrdered[uint8] over the values (x mod Vals) div 65536 (one byte each; with Vals = 2^24 an ascending
+//	          run of raw values gives 256 runs of exactly 2^16 equal values, so that every multiple of 2^16 is a boundary)
 //
 // Weak orders (first and last sentence of the statement only):
 //
@@ -94,10 +107,12 @@ type Case struct {
 	Rounds int    `json:"rounds,omitempty"`
 	// Procs > 0: the whole case (construction included) runs under runtime.GOMAXPROCS(Procs), restored afterwards.
 	Procs int `json:"procs,omitempty"`
+	// Flip: while the case runs, another goroutine keeps switching runtime.GOMAXPROCS between 2 and 7.
+	Flip bool `json:"flip,omitempty"`
 }
 
 const rule = "Sorted built by NewSorted/NewSortedOrdered from explicit raw values plus arithmetic runs (raw x: strict orders use the x mod Vals-th value of the order's alphabet, the weak orders key x mod Vals and tag x div Vals; Vals = 7 unless stated) in a caller slice with spare capacity (nil when empty); " +
-	"ops Add/Remove/RemoveAt/Get/Index/Contains/Len/String, Scribble (caller overwrites its own slice), Sweep (Index+Contains of up to 64 evenly spread distinct stored values and of 8 more values) and, in the big units, runtime.GC() in the middle of the history (at most four per case); the whole case optionally under another runtime.GOMAXPROCS; each op repeatable R times with its argument advancing by a stride, the whole list repeatable in rounds; " +
+	"ops Add/Remove/RemoveAt/Get/Index/Contains/Len/String, Scribble (caller overwrites its own slice), Sweep (Index+Contains of up to 64 evenly spread distinct stored values and of 8 more values) and, in the enumerated units, runtime.GC() in the middle of the history (at most four per case), time.Sleep (at most two) and series of Add/RemoveAt and Add/Remove pairs with every return value checked; the whole case optionally under another runtime.GOMAXPROCS; each op repeatable R times with its argument advancing by a stride, the whole list repeatable in rounds; " +
 	"indices are valid (A mod Len, Len/2) or one of -1, Len, Len+3, -(A+2), MaxInt, MinInt. " +
 	"After EVERY single call the contents are read back through Len+Get and compared with a slice model: non-decreasing under less and exact multiset after construction and Add; " +
 	"exactly 'before minus position p' after Remove (p = returned index) and RemoveAt; unchanged (same sequence) after everything else including Remove->-1 and recovered out-of-range panics; " +
@@ -188,14 +203,16 @@ type envRunner struct {
 	Float func(env[float64]) pbt.Outcome
 	KT    func(env[kt]) pbt.Outcome
 	Unit  func(env[struct{}]) pbt.Outcome
+	U32   func(env[uint32]) pbt.Outcome // nil where the giant element types are not used
+	U8    func(env[uint8]) pbt.Outcome
 }
 
 func normVals(vals int) int {
 	if vals <= 0 {
 		vals = 7
 	}
-	if vals > 1<<24 {
-		vals = 1 << 24
+	if vals > 1<<30 {
+		vals = 1 << 30
 	}
 	return vals
 }
@@ -218,9 +235,34 @@ func procsLabel(p int) string {
 	return "gomaxprocs=" + strconv.Itoa(p)
 }
 
+// flipProcs starts a goroutine that keeps switching runtime.GOMAXPROCS between 2 and 7; the returned function stops
+// it and restores the former setting.
+func flipProcs() (stop func()) {
+	old := runtime.GOMAXPROCS(0)
+	done, ack := make(chan struct{}), make(chan struct{})
+	go func() {
+		defer close(ack)
+		for i := 0; ; i++ {
+			select {
+			case <-done:
+				return
+			default:
+			}
+			runtime.GOMAXPROCS(2 + 5*(i&1))
+			time.Sleep(200 * time.Microsecond)
+		}
+	}()
+	return func() { close(done); <-ack; runtime.GOMAXPROCS(old) }
+}
+
 func Run(c Case) pbt.Outcome {
+	if c.Flip {
+		defer flipProcs()()
+	}
 	return withProcs(c.Procs, func() pbt.Outcome {
 		out := withEnv(c.Order, c.Vals, envRunner{
+			U32:   func(e env[uint32]) pbt.Outcome { return run(c, e) },
+			U8:    func(e env[uint8]) pbt.Outcome { return run(c, e) },
 			Int:   func(e env[int]) pbt.Outcome { return run(c, e) },
 			Str:   func(e env[string]) pbt.Outcome { return run(c, e) },
 			Float: func(e env[float64]) pbt.Outcome { return run(c, e) },
@@ -229,6 +271,9 @@ func Run(c Case) pbt.Outcome {
 		})
 		if c.Procs > 0 && out.Violation == "" {
 			out.Labels = append(out.Labels, procsLabel(c.Procs))
+		}
+		if c.Flip && out.Violation == "" {
+			out.Labels = append(out.Labels, "gomaxprocs-flipping-meanwhile")
 		}
 		return out
 	})
@@ -282,6 +327,18 @@ func withEnv(order string, vals int, r envRunner) pbt.Outcome {
 	case "ifptr":
 		return r.Int(env[int]{elem: intElem(vals), less: typ.Less[int], strict: true, sentinel: -99,
 			build: func(in []int) slices.Sorted[int] { return slices.NewSorted(ptrInts(in), typ.Less[int]) }})
+	case "u32":
+		if r.U32 == nil {
+			break
+		}
+		return r.U32(env[uint32]{elem: func(x int) uint32 { return uint32(mod(x, vals)) }, less: typ.Less[uint32], strict: true, sentinel: 4000000000,
+			build: func(in []uint32) slices.Sorted[uint32] { return slices.NewSortedOrdered(in...) }})
+	case "u8":
+		if r.U8 == nil {
+			break
+		}
+		return r.U8(env[uint8]{elem: func(x int) uint8 { return uint8(mod(x, vals) >> 16) }, less: typ.Less[uint8], strict: true, sentinel: 0x5a,
+			build: func(in []uint8) slices.Sorted[uint8] { return slices.NewSortedOrdered(in...) }})
 	case "weak":
 		byKey := func(a, b kt) bool { return a.K < b.K }
 		return r.KT(env[kt]{elem: func(x int) kt { x = mod(x, 3*vals); return kt{x % vals, x / vals} }, less: byKey, strict: false, sentinel: kt{-99, -99},
@@ -402,8 +459,27 @@ func run[E comparable](c Case, e env[E]) pbt.Outcome {
 	for _, x := range c.Init {
 		init = append(init, e.elem(x))
 	}
+	advUsed := 0
 	for _, f := range c.Bulk {
-		for j, nn := 0, mod(f.N, maxRepeat); j < nn; j++ {
+		nn := mod(f.N, maxRepeat)
+		if f.Adv != 0 && nn <= maxAdv {
+			// the values of this run in a quicksort-killer order
+			run := make([]E, nn)
+			for j := range run {
+				run[j] = e.elem(f.A + j*f.S)
+			}
+			sort.SliceStable(run, func(i, j int) bool { return e.less(run[i], run[j]) })
+			ranks, m := antiRanks(mod(f.Adv, nAdv), nn)
+			if m != "" {
+				return pbt.Fail("order=%s: while building the input: %s", c.Order, m)
+			}
+			for _, r := range ranks {
+				init = append(init, run[r])
+			}
+			advUsed = mod(f.Adv, nAdv)
+			continue
+		}
+		for j := 0; j < nn; j++ {
 			init = append(init, e.elem(f.A+j*f.S))
 		}
 	}
@@ -417,6 +493,7 @@ func run[E comparable](c Case, e env[E]) pbt.Outcome {
 		back[i] = e.sentinel
 	}
 	copy(back, init)
+	init = nil
 	in := back[:n] // what the caller hands over: len n, cap n+spare
 	wantBack := append([]E(nil), back...)
 	hdr := fmt.Sprintf("order=%s vals=%d init=%s", c.Order, c.Vals, show(wantBack[:n], 0))
@@ -487,8 +564,10 @@ func run[E comparable](c Case, e env[E]) pbt.Outcome {
 	if m := sortedMsg(model); m != "" {
 		return pbt.Fail("%s: after construction: %s", hdr, m)
 	}
-	if m := multisetMsg(model, wantBack[:n]); m != "" {
-		return pbt.Fail("%s: after construction: %s", hdr, m)
+	if !eq(model, wantBack[:n]) { // an input that was in order already must come back as it is
+		if m := multisetMsg(model, wantBack[:n]); m != "" {
+			return pbt.Fail("%s: after construction: %s", hdr, m)
+		}
 	}
 	if m := backMsg(); m != "" {
 		return pbt.Fail("%s: after construction: %s", hdr, m)
@@ -500,7 +579,8 @@ func run[E comparable](c Case, e env[E]) pbt.Outcome {
 		oobGet, oobRemoveAt, okGet                        bool
 		ratMid, ratEdge, emptied                          bool
 		idxAbsent, idxDup, idxPresent                     bool
-		scribbled, swept, gced                            bool
+		scribbled, swept, gced, slept                     bool
+		pairs, sleeps                                     int
 		removedBig, quartered, regrown                    bool
 		staleIdx                                          bool
 		gcs                                               int
@@ -529,6 +609,7 @@ func run[E comparable](c Case, e env[E]) pbt.Outcome {
 	}
 
 	rounds := mod(c.Rounds, maxRepeat)
+	steps := 0
 	step := func(ri, oi, ji int, repeated bool, op Op) pbt.Outcome {
 		var what string
 		at := 0
@@ -729,6 +810,55 @@ func run[E comparable](c Case, e env[E]) pbt.Outcome {
 				runtime.GC()
 			}
 			gced = true
+		case opSleep:
+			what = "time.Sleep"
+			if sleeps >= maxSleeps {
+				what = "(time.Sleep skipped)"
+				break
+			}
+			sleeps++
+			d := time.Duration(mod(op.A, 80)) * 100 * time.Millisecond
+			what = fmt.Sprintf("time.Sleep(%v)", d)
+			time.Sleep(d)
+			slept = slept || d >= 2*time.Second
+		case opPair:
+			what = "Pair"
+			if !e.strict {
+				break
+			}
+			for i, cnt := 0, 1+mod(op.B, 1<<17); i < cnt; i++ {
+				v := e.elem(op.A + 2*i)
+				what = fmt.Sprintf("Add/remove pair %d of %d: Add(%v)", i, cnt, v)
+				p := s.Add(v)
+				at = p
+				if p < 0 || p > len(model) {
+					return fail("returned %d, outside [0,%d]", p, len(model))
+				}
+				if got := s.Get(p); got != v {
+					return fail("returned %d but Get(%d) = %v: the new value does not sit there", p, p, got)
+				}
+				if (p > 0 && e.less(v, model[p-1])) || (p < len(model) && e.less(model[p], v)) {
+					return fail("returned %d: the new value sits out of order there", p)
+				}
+				if l := s.Len(); l != len(model)+1 {
+					return fail("Len() = %d afterwards, want %d", l, len(model)+1)
+				}
+				if i&1 == 0 {
+					what = fmt.Sprintf("Add/remove pair %d of %d: RemoveAt(%d) after Add(%v) = %d", i, cnt, p, v, p)
+					s.RemoveAt(p)
+				} else {
+					what = fmt.Sprintf("Add/remove pair %d of %d: Remove(%v) after Add(%v) = %d", i, cnt, v, v, p)
+					if r := s.Remove(v); r < 0 || r > len(model) || !(r == p || (r < p && model[r] == v) || (r > p && model[r-1] == v)) {
+						return fail("returned %d, which is not a position that held the value (added at %d)", r, p)
+					}
+				}
+				if l := s.Len(); l != len(model) {
+					return fail("Len() = %d afterwards, want %d", l, len(model))
+				}
+				pairs++
+				steps += 2
+				evals += 4
+			}
 		case opSweep:
 			what = "Sweep"
 			if !e.strict {
@@ -818,7 +948,6 @@ func run[E comparable](c Case, e env[E]) pbt.Outcome {
 	}
 
 	occ := make([]int, len(c.Ops))
-	steps := 0
 	for r := 0; r <= rounds; r++ {
 		for i, op0 := range c.Ops {
 			reps := mod(op0.R, maxRepeat)
@@ -881,11 +1010,16 @@ func run[E comparable](c Case, e env[E]) pbt.Outcome {
 	lab(scribbled, "caller-scribbles-input")
 	lab(swept, "sweep")
 	lab(gced, "gc-in-the-middle")
+	lab(slept, "idle>=2s-in-the-middle")
+	lab(pairs >= 1<<15, "unchecked-between-pairs>=2^15")
+	if advUsed != 0 {
+		out.Labels = append(out.Labels, "input-quicksort-killer-"+advNames[advUsed])
+	}
 	lab(removedBig, "removal-at-len>=32")
 	lab(quartered, "drained-to-quarter-of-peak>=64")
 	lab(regrown, "regrown-to-peak-after-draining-to-quarter")
 	lab(maxLen >= 8, "maxlen>=8")
-	for _, t := range []int{32, 64, 128, 256, 512, 1024, 2048, 4096, 8192, 1 << 14, 1 << 15, 1 << 16, 1 << 17, 1 << 18, 1 << 20} {
+	for _, t := range []int{32, 64, 128, 256, 512, 1024, 2048, 4096, 8192, 1 << 14, 1 << 15, 1 << 16, 1 << 17, 1 << 18, 1 << 20, 1 << 21, 1 << 22, 1 << 23, 1<<24 - 1} {
 		if maxLen > t {
 			out.Labels = append(out.Labels, "maxlen>"+strconv.Itoa(t))
 		}
@@ -975,21 +1109,21 @@ func genCase(t *rapid.T, orders []string) Case {
 var strictOrders = []string{"int", "named", "desc", "str", "edge", "float", "lex", "unit", "ifdesc", "ifstr", "iffloat", "ifweird", "ifptr"}
 var weakOrders = []string{"weak", "ifweak"}
 
-const ruleSmall = "SMALL histories: 0..10 (one case in eight: 21..44) explicit initial values, raw x in 0..62, Vals in {7,1,2,3,30}, 0..3 spare; <= 40 ops, one op in 16 repeated 2, 3, 6 or 41 times. "
+const ruleSmall = "one case in eight is run a second time as 4 parallel independent copies; SMALL histories: 0..10 (one case in eight: 21..44) explicit initial values, raw x in 0..62, Vals in {7,1,2,3,30}, 0..3 spare; <= 40 ops, one op in 16 repeated 2, 3, 6 or 41 times. "
 
 var specStrict = pbt.Register(&pbt.Spec[Case]{
 	Property: "C07", Name: "C07.strict",
 	Rule: "rapid: strict total orders consistent with == — int, named slice type, descending, strings, ints at the ends of the int range, floats with -0.0/+0.0/Inf/denormal, lexicographic structs, zero-size struct{}, " +
 		"and slice types that carry their OWN differing sort.Interface (sort.IntSlice/StringSlice/Float64Slice with a descending less, user types with value- and pointer-receiver methods); " + ruleSmall + rule + ruleNT,
 	Gen: func(t *rapid.T) Case { return genCase(t, strictOrders) },
-	Run: Run, Quick: 30000, Thorough: 200000,
+	Run: Run, Quick: 30000, Thorough: 200000, Replicas: 4, ReplicaEvery: 8,
 })
 
 var specWeak = pbt.Register(&pbt.Spec[Case]{
 	Property: "C07", Name: "C07.weak",
 	Rule: "rapid: weak order on {K,T} comparing K only, over []kt and over a named slice type whose own sort.Interface compares T (first and last sentence of the statement only: the position of an added element among equivalents, and which equivalent element Remove takes or whether it finds one, are free); " + ruleSmall + rule + ruleNT,
 	Gen:  func(t *rapid.T) Case { return genCase(t, weakOrders) },
-	Run:  Run, Quick: 15000, Thorough: 100000,
+	Run:  Run, Quick: 15000, Thorough: 100000, Replicas: 4, ReplicaEvery: 8,
 })
 
 func TestC07Strict(t *testing.T) { pbt.Check(t, specStrict) }
